@@ -50,6 +50,14 @@ class NLRI(object):
         prefix_hex = netaddr.IPNetwork(prefix).ip.packed
         return prefix_hex[0: (mask + 7) // 8]
 
+    @staticmethod
+    def parse_ip_address(data):
+        """
+        IP address carried in a 4 octets (IPv4) or 16 octets (IPv6) field: the address
+        family is given by the size of the field, not by the magnitude of its value
+        """
+        return str(netaddr.IPAddress(int(binascii.b2a_hex(data), 16), 4 if len(data) <= 4 else 6))
+
     @classmethod
     def parse_mpls_label_stack(cls, data):
         labels = []
